@@ -99,7 +99,8 @@ def vec_obligations(ck):
             same = all((a.a == b).all() if False else all(u is w for u, w in zip(a.a.flat, b.flat)) for a, b in zip((xs, ys, x), holder["copy"]))
             ck.direct("%s/assigns.params%s" % (qn, tag), same, "frame", "object identity of every element after the last path", clause="the input arrays are not modified")
     ck.vacuity["vec_1d_interp_paths"] = total_paths
-    if total_paths == 0:
+    if total_paths == 0 and not any(o.id.startswith("%s/%s/exec" % (ck.prop, qn)) for o in ck.undecided):
+        # no path although nothing was reported as unsupported: the exploration itself is broken (vacuity guard)
         ck.vacuity["failed"].append("vec_1d_interp: no feasible path")
 
 
